@@ -20,6 +20,7 @@ const (
 	kStruct
 	kFunc // callback parameter
 	kErr  // the predeclared type `error` (GoSem.Err)
+	kOptFn // a function VALUE that may be nil (local `var f func(…)`, element of a `...func(…)` parameter): Option (args → res)
 )
 
 // ty is the Lean-side view of a Go type.
@@ -60,6 +61,10 @@ func (t *ty) lean() string {
 		return t.name
 	case kErr:
 		return "GoSem.Err"
+	case kOptFn:
+		f := *t
+		f.k = kFunc
+		return "Option (" + f.lean() + ")"
 	case kFunc:
 		var parts []string
 		for _, a := range t.fnArgs {
@@ -100,6 +105,8 @@ func (t *ty) zero() (string, bool) {
 		return "(default : " + t.name + ")", true
 	case kErr:
 		return "GoSem.Err.nil", true
+	case kOptFn:
+		return "(none : " + t.lean() + ")", true
 	case kStruct:
 		var fs []string
 		for i, f := range t.st.fields {
@@ -134,6 +141,9 @@ func (t *ty) code() string {
 		}
 		if t.elem.k == kBV && t.elem.bits == 8 && !t.elem.signed {
 			return "bytes"
+		}
+		if sc := structListCode(t.elem); sc != "" {
+			return sc
 		}
 		c := t.elem.code()
 		if strings.HasPrefix(c, "tparam:") {
@@ -244,6 +254,11 @@ func (t *fn) goType(gt types.Type) (*ty, error) {
 	case *types.Chan:
 		return nil, fmt.Errorf("channel type %s is outside the subset", u)
 	case *types.Signature:
+		// a function VALUE (not a direct callback parameter) may be nil: Option of a pure total function
+		if ft, ferr := t.funcParamTy(u); ferr == nil && !ft.fnMut {
+			ft.k = kOptFn
+			return ft, nil
+		}
 		return nil, fmt.Errorf("function value of type %s is outside the subset", u)
 	case *types.Interface:
 		return nil, fmt.Errorf("interface type %s is outside the subset", u)
@@ -424,4 +439,21 @@ func (t *fn) funcParamTy(sig *types.Signature) (*ty, error) {
 		return nil, fmt.Errorf("callback without results whose first parameter is not a slice (it can only act through effects) is outside the subset")
 	}
 	return nil, fmt.Errorf("callback with several results is outside the subset")
+}
+
+// structListCode: protocol kind of a slice of a non-generic struct whose fields are all scalars:
+// "slist:Name:f1=code1;f2=code2" — one token, items separated by `,`, the fields of an item by `/`.
+func structListCode(e *ty) string {
+	if e == nil || e.k != kStruct || e.st == nil || len(e.st.tparams) > 0 || len(e.st.fields) == 0 {
+		return ""
+	}
+	var fs []string
+	for i, f := range e.st.fields {
+		ft := e.st.ftypes[i]
+		if ft.k != kInt && ft.k != kBool && ft.k != kBV {
+			return ""
+		}
+		fs = append(fs, f+"="+ft.code())
+	}
+	return "slist:" + e.st.name + ":" + strings.Join(fs, ";")
 }
